@@ -14,8 +14,8 @@ import (
 	"go/token"
 	"go/types"
 	"runtime/debug"
-	"time"
 	"strings"
+	"time"
 
 	"golang.org/x/tools/go/ssa"
 )
